@@ -787,8 +787,16 @@ class CompartmentalSystem(Statement):
         return (
             self._t == other._t
             and nx.to_dict_of_dicts(self._g) == nx.to_dict_of_dicts(other._g)
-            and self.dosing_compartments == other.dosing_compartments
+            and self._dosing_compartments_or_none() == other._dosing_compartments_or_none()
         )
+
+    def _dosing_compartments_or_none(self):
+        # dosing_compartments is undefined (ValueError) for systems without doses
+        # or without a central compartment; such systems can still be compared
+        try:
+            return self.dosing_compartments
+        except ValueError:
+            return None
 
     def __hash__(self):
         # NOTE: Must be consistent with __eq__, i.e. independent of the identity
